@@ -63,8 +63,9 @@ impl Copy for ExecutionKind {}
 // ===========================================================================
 /// a status word received from a dependency
 pub enum RWord { Ok, Invalidated }
-/// the latest status word sent to a peer; `at` = number of events delivered when it was sent
-pub enum Word { Ok { actual: bool, at: nat }, Invalidated }
+/// the latest status word sent to a peer; `dep_actual` = "some dependency had reported an actual
+/// build/service of that kind" at the moment the word was sent
+pub enum Word { Ok { actual: bool, dep_actual: bool }, Invalidated }
 
 /// one delivered event = one `select!` arm firing
 pub enum Ev {
@@ -113,6 +114,7 @@ pub tracked struct Trace {
     pub ghost watcher_present: bool,
     pub ghost cancels_sent: nat,
     // process table (A-proc)
+    pub ghost spawn_calls: nat,
     pub ghost spawned: Set<int>,
     pub ghost killed: Set<int>,
     pub ghost waited: Set<int>,
@@ -136,7 +138,7 @@ impl Trace {
         Trace {
             last: match m {
                 TargetActorOutputMessage::MessageActor { dest, msg: ActorInputMessage::Ok { kind, actual, .. } } =>
-                    self.last.insert((dest, kind), Word::Ok { actual, at: self.inlog.len() }),
+                    self.last.insert((dest, kind), Word::Ok { actual, dep_actual: actual_of(self.inlog, kind).len() > 0 }),
                 TargetActorOutputMessage::MessageActor { dest, msg: ActorInputMessage::Invalidated { kind, .. } } =>
                     self.last.insert((dest, kind), Word::Invalidated),
                 _ => self.last,
@@ -177,7 +179,7 @@ impl Trace {
     pub open spec fn same_but_sends(self, o: Trace) -> bool {
         &&& self.me == o.me && self.inlog == o.inlog && self.unreq == o.unreq && self.starts == o.starts
         &&& self.last_done_ok == o.last_done_ok && self.watcher_present == o.watcher_present
-        &&& self.cancels_sent == o.cancels_sent && self.spawned == o.spawned && self.killed == o.killed && self.waited == o.waited
+        &&& self.cancels_sent == o.cancels_sent && self.spawn_calls == o.spawn_calls && self.spawned == o.spawned && self.killed == o.killed && self.waited == o.waited
         &&& self.n_err == o.n_err && self.term_seen == o.term_seen
     }
 }
@@ -301,10 +303,10 @@ impl Sender<BuildCancellationMessage> {
 // ===========================================================================
 // broadcast summaries
 // ===========================================================================
-/// the status word carried by a message, as it will be recorded in `last` when sent after `at` deliveries
-pub open spec fn word_of(msg: ActorInputMessage, at: nat) -> Option<(ExecutionKind, Word)> {
+/// the status word carried by a message, as it will be recorded in `last` when sent after the deliveries `log`
+pub open spec fn word_of(msg: ActorInputMessage, log: Seq<Ev>) -> Option<(ExecutionKind, Word)> {
     match msg {
-        ActorInputMessage::Ok { kind, actual, .. } => Some((kind, Word::Ok { actual, at })),
+        ActorInputMessage::Ok { kind, actual, .. } => Some((kind, Word::Ok { actual, dep_actual: actual_of(log, kind).len() > 0 })),
         ActorInputMessage::Invalidated { kind, .. } => Some((kind, Word::Invalidated)),
         _ => None,
     }
@@ -515,8 +517,8 @@ impl TargetActorHelper {
         final(tr).same_but_sends(*old(tr)),
         final(tr).n_out == old(tr).n_out + self.req(kind).len(),
         msg_id_ok(TargetActorOutputMessage::MessageActor { dest: ActorId::Root, msg }, old(tr).me) ==> final(tr).ids_ok == old(tr).ids_ok,
-        word_of(msg, old(tr).inlog.len()) matches Some((k, w)) ==> bcast_last(old(tr).last, final(tr).last, self.req(kind), k, w),
-        word_of(msg, old(tr).inlog.len()) is Some ==> final(tr).requested == old(tr).requested && final(tr).sent_unreq == old(tr).sent_unreq,
+        word_of(msg, old(tr).inlog) matches Some((k, w)) ==> bcast_last(old(tr).last, final(tr).last, self.req(kind), k, w),
+        word_of(msg, old(tr).inlog) is Some ==> final(tr).requested == old(tr).requested && final(tr).sent_unreq == old(tr).sent_unreq,
         msg is Ok ==> final(tr).sent_inval == old(tr).sent_inval,
 //@pre
         broadcast use group_keys;
@@ -530,8 +532,8 @@ impl TargetActorHelper {
                 tr.same_but_sends(*old(tr)),
                 tr.n_out == old(tr).n_out + it.index@,
                 msg_id_ok(TargetActorOutputMessage::MessageActor { dest: ActorId::Root, msg }, old(tr).me) ==> tr.ids_ok == old(tr).ids_ok,
-                word_of(msg, old(tr).inlog.len()) matches Some((k, w)) ==> bcast_last(old(tr).last, tr.last, it.seq().take(it.index@ as int).unref().to_set(), k, w),
-                word_of(msg, old(tr).inlog.len()) is Some ==> tr.requested == old(tr).requested && tr.sent_unreq == old(tr).sent_unreq,
+                word_of(msg, old(tr).inlog) matches Some((k, w)) ==> bcast_last(old(tr).last, tr.last, it.seq().take(it.index@ as int).unref().to_set(), k, w),
+                word_of(msg, old(tr).inlog) is Some ==> tr.requested == old(tr).requested && tr.sent_unreq == old(tr).sent_unreq,
                 msg is Ok ==> tr.sent_inval == old(tr).sent_inval,
 //@loopbody
             proof {
@@ -554,7 +556,7 @@ impl TargetActorHelper {
         final(self).to_execute == old(self).to_execute,
         /*[C06.no-stale-ack,C01.ok-build]*/ final(self).executed == !old(self).to_execute,
         /*[C06.no-stale-ack,C01.ok-build]*/ old(self).to_execute ==> *final(tr) == *old(tr),
-        /*[C04.ack]*/ !old(self).to_execute ==> bcast_word(*old(tr), *final(tr), old(self).req(kind), kind, Word::Ok { actual: true, at: old(tr).inlog.len() }),
+        /*[C04.ack]*/ !old(self).to_execute ==> bcast_word(*old(tr), *final(tr), old(self).req(kind), kind, Word::Ok { actual: true, dep_actual: actual_of(old(tr).inlog, kind).len() > 0 }),
         !old(self).to_execute && old(self).target_id == old(tr).me ==> final(tr).ids_ok == old(tr).ids_ok,
 //@end
 
@@ -788,6 +790,264 @@ impl BuildTargetActor {
             }
 //@after 0 `loop`
         assert(/*[C10.cancel-on-term]*/ !ongoing_build_fuse.running());
+//@end
+}
+
+// ===========================================================================
+// ServiceTargetActor
+// ===========================================================================
+//@item src/engine/target_actor/service_target_actor.rs ServiceTargetActor pubfields
+
+/// `run_script::build_command(script, dir)` (A-proc)
+#[verifier::external_body]
+pub fn build_command(script: &String, dir: &PathBuf) -> (r: Command)
+    ensures r.script() == *script, r.dir() == *dir,
+{ unimplemented!() }
+
+impl Command {
+    pub uninterp spec fn script(&self) -> String;
+    pub uninterp spec fn dir(&self) -> PathBuf;
+    #[verifier::external_body]
+    pub fn stdout(&mut self, s: Stdio) -> (r: CmdChain)
+        ensures final(self).script() == old(self).script(), final(self).dir() == old(self).dir(),
+    { unimplemented!() }
+    /// either fails, or adds exactly one new live child (A-proc)
+    #[verifier::external_body]
+    pub fn spawn(&mut self, Tracked(tr): Tracked<&mut Trace>) -> (r: std::result::Result<Child, IoError>)
+        ensures
+            r matches Ok(c) ==> !old(tr).spawned.contains(c.id()) && !old(tr).waited.contains(c.id())
+                && *final(tr) == (Trace { spawn_calls: old(tr).spawn_calls + 1, spawned: old(tr).spawned.insert(c.id()), ..*old(tr) }),
+            r is Err ==> *final(tr) == (Trace { spawn_calls: old(tr).spawn_calls + 1, ..*old(tr) }),
+    { unimplemented!() }
+}
+impl Child {
+    #[verifier::external_body]
+    pub fn kill(&mut self, Tracked(tr): Tracked<&mut Trace>) -> (r: std::result::Result<(), IoError>)
+        ensures final(self).id() == old(self).id(),
+            *final(tr) == (Trace { killed: old(tr).killed.insert(old(self).id()), ..*old(tr) }),
+    { unimplemented!() }
+    /// `status().await`: the child has been waited for (reaped when Ok)
+    #[verifier::external_body]
+    pub fn status(&mut self, Tracked(tr): Tracked<&mut Trace>) -> (r: std::result::Result<ExitStatus, IoError>)
+        ensures final(self).id() == old(self).id(),
+            *final(tr) == (Trace { waited: old(tr).waited.insert(old(self).id()), ..*old(tr) }),
+    { unimplemented!() }
+}
+
+/// one firing of the service actor's `select!` (R3); same assumptions as `select_build`, no `Done` arm
+#[verifier::external_body]
+pub fn select_service(h: &TargetActorHelper, Tracked(tr): Tracked<&mut Trace>) -> (e: Ev)
+    ensures
+        *final(tr) == old(tr).delivered(e),
+        !(e is Done),
+        e matches Ev::Msg(m) ==> m is Some,
+        e is Inval ==> old(tr).watcher_present,
+{ unimplemented!() }
+
+/// [C10.reap-service, C11.single-instance] every child ever spawned, except the one currently held,
+/// has been killed and waited for; the held one is live
+pub open spec fn reap_inv(sp: Option<Child>, tr: Trace) -> bool {
+    &&& forall|id: int| #![trigger tr.spawned.contains(id)] tr.spawned.contains(id) ==>
+            (sp matches Some(c) && c.id() == id) || (tr.killed.contains(id) && tr.waited.contains(id))
+    &&& sp matches Some(c) ==> tr.spawned.contains(c.id()) && !tr.waited.contains(c.id())
+}
+
+/// only the process table moved between two traces
+pub open spec fn same_but_procs(t0: Trace, t1: Trace) -> bool {
+    t1 == (Trace { spawn_calls: t1.spawn_calls, spawned: t1.spawned, killed: t1.killed, waited: t1.waited, ..t0 })
+}
+
+impl ServiceTargetActor {
+//@fn src/engine/target_actor/service_target_actor.rs ServiceTargetActor::new ret=r
+//@contract
+    ensures r.target == target, r.helper == helper, /*[C11.single-instance]*/ r.service_process is None,
+//@end
+
+//@fn src/engine/target_actor/service_target_actor.rs ServiceTargetActor::stop_service
+//@contract
+    requires
+        reap_inv(old(self).service_process, *old(tr)),
+    ensures
+        final(self).helper == old(self).helper, final(self).target == old(self).target,
+        /*[C10.reap-service,C11.stop-at-exit]*/ final(self).service_process is None,
+        /*[C10.reap-service,C11.stop-at-exit]*/ reap_inv(final(self).service_process, *final(tr)),
+        same_but_procs(*old(tr), *final(tr)),
+        final(tr).spawn_calls == old(tr).spawn_calls, final(tr).spawned == old(tr).spawned,
+//@end
+
+//@fn src/engine/target_actor/service_target_actor.rs ServiceTargetActor::restart_service ret=r
+//@contract
+    requires
+        reap_inv(old(self).service_process, *old(tr)),
+    ensures
+        final(self).helper == old(self).helper, final(self).target == old(self).target,
+        /*[C11.single-instance]*/ reap_inv(final(self).service_process, *final(tr)),
+        /*[C01.ok-service]*/ r is Ok ==> final(self).service_process is Some,
+        r is Err ==> final(self).service_process is None,
+        same_but_procs(*old(tr), *final(tr)),
+        /*[C08.once-local]*/ final(tr).spawn_calls == old(tr).spawn_calls + 1,
+//@before 0 `let service_process = command`
+        assert(/*[C11.single-instance]*/ forall|id: int| tr.spawned.contains(id) ==> tr.waited.contains(id));
+//@end
+
+//@fn src/engine/target_actor/service_target_actor.rs ServiceTargetActor::run
+//@split-arms
+//@attr #[verifier::exec_allows_no_decreases_clause]
+//@contract
+    requires
+        old(self).helper.wf(),
+        old(self).helper.to_execute && !old(self).helper.executed,
+        old(self).helper.req(ExecutionKind::Build) == Set::<ActorId>::empty(),
+        old(self).helper.req(ExecutionKind::Service) == Set::<ActorId>::empty(),
+        old(self).helper.un(ExecutionKind::Build) == old(self).helper.deps(),
+        old(self).helper.un(ExecutionKind::Service) == old(self).helper.deps(),
+        old(self).helper.target_id == old(tr).me,
+        old(self).service_process is None,
+        old(tr).inlog.len() == 0, old(tr).last == Map::<(ActorId, ExecutionKind), Word>::empty(),
+        old(tr).requested == Set::<(ActorId, ExecutionKind)>::empty(),
+        old(tr).unreq == Set::<(ActorId, ExecutionKind)>::empty(),
+        old(tr).spawned == Set::<int>::empty(), old(tr).spawn_calls == 0,
+        !old(tr).sent_unreq, !old(tr).sent_inval, !old(tr).term_seen, old(tr).ids_ok, old(tr).n_err == 0,
+    ensures
+        /*[C04.no-early-exit]*/ final(tr).term_seen,
+        /*[C01.identity]*/ final(tr).ids_ok,
+        /*[C10.reap-service,C11.stop-at-exit]*/ forall|id: int| final(tr).spawned.contains(id) ==> final(tr).killed.contains(id) && final(tr).waited.contains(id),
+//@pre
+        broadcast use group_keys;
+        broadcast use vstd::std_specs::hash::group_hash_axioms;
+        let ghost h0 = self.helper;
+        let ghost t0 = self.target;
+//@loop 0
+            invariant
+                /*[C04.nopanic]*/ self.helper.wf(), self.helper.same_static(&h0), self.target == t0,
+                /*[C01.identity]*/ self.helper.target_id == tr.me && tr.ids_ok,
+                /*[C01.book]*/ kinds_book(&self.helper, *tr),
+                self.helper.to_execute ==> !self.helper.executed,
+                /*[C01.ok-service]*/ self.helper.executed && !nonempty(tr.unreq) ==> self.service_process is Some,
+                /*[C04.ack,C01.ok-service]*/ ack_inv(&self.helper, *tr, ExecutionKind::Service, self.helper.executed),
+                /*[C11.service-true]*/ oks_actual(*tr, ExecutionKind::Service, true),
+                /*[C11.service-true]*/ only_ok_actual(*tr, ExecutionKind::Build, false),
+                /*[C10.reap-service,C11.single-instance]*/ reap_inv(self.service_process, *tr),
+                /*[C04.no-unrequest]*/ tr.sent_unreq ==> nonempty(tr.unreq),
+                /*[C08.no-inval-oneshot]*/ tr.sent_inval ==> count_inval(tr.inlog) > 0,
+                /*[C04.request-deps]*/ self.helper.req(ExecutionKind::Service).len() > 0 ==> deps_requested(&self.helper, *tr, ExecutionKind::Build) && deps_requested(&self.helper, *tr, ExecutionKind::Service),
+                /*[C08.once-local]*/ tr.spawn_calls + (if self.helper.to_execute { 1nat } else { 0nat }) <= 1 + count_inval(tr.inlog),
+                /*[C07.no-ack-on-failure]*/ tr.n_err <= tr.spawn_calls,
+            ensures
+                /*[C04.no-early-exit]*/ tr.term_seen,
+//@loopbody
+            broadcast use group_keys;
+            broadcast use vstd::std_specs::hash::group_hash_axioms;
+//@before 0 `self.helper.set_execution_started();`
+                proof { lemma_start_ready(&self.helper, *tr); }
+                assert(/*[C01.start-service]*/ all_deps_ok(&self.helper, *tr));
+                assert(/*[C08.once-local]*/ self.helper.to_execute);
+//@select 0 enum=Ev oracle=`select_service(&self.helper)`
+//@arm Term `self.helper.termination_events.next().fuse()`
+//@arm Inval `self.helper.target_invalidated_events.next().fuse()`
+//@arm Msg `self.helper.target_actor_input_receiver.next().fuse()`
+            let ghost log0 = tr.inlog;
+            //---
+            proof {
+                assert(tr.inlog.drop_last() == log0);
+                reveal_with_fuel(unavail_of, 2);
+                reveal_with_fuel(count_inval, 2);
+                let ghost ev_g = __ev;
+                if let Ev::Msg(Some(ActorInputMessage::Unrequested { kind, requester })) = ev_g {
+                    assert(tr.unreq.contains((requester, kind)));
+                }
+            }
+//@end
+}
+
+// ===========================================================================
+// AggregateTargetActor
+// ===========================================================================
+//@item src/engine/target_actor/aggregate_target_actor.rs AggregateTargetActor pubfields
+
+/// one firing of the aggregate actor's `select!` (R3): termination or inbox
+#[verifier::external_body]
+pub fn select_aggregate(h: &TargetActorHelper, Tracked(tr): Tracked<&mut Trace>) -> (e: Ev)
+    ensures
+        *final(tr) == old(tr).delivered(e),
+        e is Term || e is Msg,
+        e matches Ev::Msg(m) ==> m is Some,
+{ unimplemented!() }
+
+/// [C11.agg-or, C20.actual] every `Ok` an aggregate sent carried `actual` = "some dependency had reported actual"
+pub open spec fn agg_actual_ok(tr: Trace, k: ExecutionKind) -> bool {
+    forall|r: ActorId| #![trigger tr.last.contains_key((r, k))]
+        tr.last.contains_key((r, k)) ==> (tr.last[(r, k)] matches Word::Ok { actual, dep_actual } ==> actual == dep_actual)
+}
+
+impl AggregateTargetActor {
+//@fn src/engine/target_actor/aggregate_target_actor.rs AggregateTargetActor::new ret=r
+//@contract
+    ensures r._target == target, r.helper == helper,
+//@end
+
+//@fn src/engine/target_actor/aggregate_target_actor.rs AggregateTargetActor::run
+//@split-arms
+//@attr #[verifier::exec_allows_no_decreases_clause]
+//@replace `HashMap::<ExecutionKind, _>::new()` => `HashMap::<ExecutionKind, HashSet<TargetId>>::new()` rule=R15 why=`inferred type argument written out (Verus needs the element type before the first insert)`
+//@contract
+    requires
+        old(self).helper.wf(),
+        old(self).helper.req(ExecutionKind::Build) == Set::<ActorId>::empty(),
+        old(self).helper.req(ExecutionKind::Service) == Set::<ActorId>::empty(),
+        old(self).helper.un(ExecutionKind::Build) == old(self).helper.deps(),
+        old(self).helper.un(ExecutionKind::Service) == old(self).helper.deps(),
+        old(self).helper.target_id == old(tr).me,
+        old(tr).inlog.len() == 0, old(tr).last == Map::<(ActorId, ExecutionKind), Word>::empty(),
+        old(tr).requested == Set::<(ActorId, ExecutionKind)>::empty(),
+        old(tr).unreq == Set::<(ActorId, ExecutionKind)>::empty(),
+        !old(tr).sent_unreq, !old(tr).sent_inval, !old(tr).term_seen, old(tr).ids_ok, old(tr).n_err == 0,
+        old(tr).starts.len() == 0, old(tr).spawn_calls == 0,
+    ensures
+        /*[C04.no-early-exit]*/ final(tr).term_seen,
+        /*[C01.identity]*/ final(tr).ids_ok,
+        /*[C20.no-exec]*/ final(tr).n_err == 0 && final(tr).starts.len() == 0 && final(tr).spawn_calls == 0,
+//@pre
+        broadcast use group_keys;
+        broadcast use vstd::std_specs::hash::group_hash_axioms;
+        let ghost h0 = self.helper;
+//@loop 0
+            invariant
+                /*[C04.nopanic]*/ self.helper.wf(), self.helper.same_static(&h0),
+                /*[C04.nopanic]*/ dependencies@.contains_key(ExecutionKind::Build) && dependencies@.contains_key(ExecutionKind::Service),
+                /*[C01.identity]*/ self.helper.target_id == tr.me && tr.ids_ok,
+                /*[C01.book]*/ kinds_book(&self.helper, *tr),
+                /*[C20.actual,C11.agg-or]*/ dependencies@[ExecutionKind::Build]@ == actual_of(tr.inlog, ExecutionKind::Build),
+                /*[C20.actual,C11.agg-or]*/ dependencies@[ExecutionKind::Service]@ == actual_of(tr.inlog, ExecutionKind::Service),
+                /*[C04.ack,C20.fan-in,C01.ok-aggregate]*/ ack_inv(&self.helper, *tr, ExecutionKind::Build, self.helper.un(ExecutionKind::Build).len() == 0),
+                /*[C04.ack,C20.fan-in,C01.ok-aggregate]*/ ack_inv(&self.helper, *tr, ExecutionKind::Service, self.helper.un(ExecutionKind::Service).len() == 0),
+                /*[C20.actual,C11.agg-or]*/ agg_actual_ok(*tr, ExecutionKind::Build),
+                /*[C20.actual,C11.agg-or]*/ agg_actual_ok(*tr, ExecutionKind::Service),
+                /*[C04.no-unrequest]*/ tr.sent_unreq ==> nonempty(tr.unreq),
+                /*[C08.no-inval-oneshot,C20.inval]*/ tr.sent_inval ==> count_inval(tr.inlog) > 0,
+                /*[C04.request-deps,C20.fan-out]*/ self.helper.req(ExecutionKind::Build).len() > 0 ==> deps_requested(&self.helper, *tr, ExecutionKind::Build),
+                /*[C04.request-deps,C20.fan-out]*/ self.helper.req(ExecutionKind::Service).len() > 0 ==> deps_requested(&self.helper, *tr, ExecutionKind::Service),
+                /*[C20.no-exec]*/ tr.n_err == 0 && tr.starts.len() == 0 && tr.spawn_calls == 0,
+            ensures
+                /*[C04.no-early-exit]*/ tr.term_seen,
+//@loopbody
+            broadcast use group_keys;
+            broadcast use vstd::std_specs::hash::group_hash_axioms;
+//@select 0 enum=Ev oracle=`select_aggregate(&self.helper)`
+//@arm Term `self.helper.termination_events.next().fuse()`
+//@arm Msg `self.helper.target_actor_input_receiver.next().fuse()`
+            let ghost log0 = tr.inlog;
+            //---
+            proof {
+                assert(tr.inlog.drop_last() == log0);
+                reveal_with_fuel(unavail_of, 2);
+                reveal_with_fuel(count_inval, 2);
+                reveal_with_fuel(actual_of, 2);
+                let ghost ev_g = __ev;
+                if let Ev::Msg(Some(ActorInputMessage::Unrequested { kind, requester })) = ev_g {
+                    assert(tr.unreq.contains((requester, kind)));
+                }
+            }
 //@end
 }
 
